@@ -41,19 +41,22 @@ let parse_bank (t : string) : n list * n list =
   match split ':' t with [ n; d ] -> (unhex n, unhex d) | _ -> failwith ("bad bank token " ^ t)
 
 (* evaluated for two HashMap iteration orders and both overflow modes; e2e_group_order_irrelevant and
-   e2e_build_no_wrap say they agree, the runner checks it again *)
-let run_model (toks : string list) : string =
+   e2e_build_no_wrap say they agree, the runner checks it again on every case of up to 8 kilobytes of bank data (larger ones are
+   evaluated once) *)
+let run_model (len : int) (toks : string list) : string =
   match toks with
   | [] -> failwith "no run number"
   | r :: rest ->
       let run = n_of_string r in
       let banks = List.map parse_bank (List.filter (fun t -> t <> "") rest) in
       let o1 = obs_res (try_from_banks_model Checked run banks (fun l -> l)) in
-      let o2 = obs_res (try_from_banks_model Checked run banks List.rev) in
-      let o3 = obs_res (try_from_banks_model Wrapping run banks (fun l -> l)) in
-      if o1 <> o2 then "order-dependent [" ^ o1 ^ "] [" ^ o2 ^ "]"
-      else if o1 <> o3 then "mode-dependent [" ^ o1 ^ "] [" ^ o3 ^ "]"
-      else o1
+      if len > 16000 then o1
+      else
+        let o2 = obs_res (try_from_banks_model Checked run banks List.rev) in
+        let o3 = obs_res (try_from_banks_model Wrapping run banks (fun l -> l)) in
+        if o1 <> o2 then "order-dependent [" ^ o1 ^ "] [" ^ o2 ^ "]"
+        else if o1 <> o3 then "mode-dependent [" ^ o1 ^ "] [" ^ o3 ^ "]"
+        else o1
 
 let cal_tok = function
   | DErr -> "E"
@@ -75,7 +78,7 @@ let summarise (toks : string list) : string =
 
 let handle (line : string) : string =
   match split ' ' line with
-  | "e2e" :: rest -> run_model rest
+  | "e2e" :: rest -> run_model (String.length line) rest
   | [ "calw"; r ] -> summarise (List.map cal_tok (wire_cal_row (n_of_string r)))
   | [ "calp"; r; c ] -> summarise (List.map cal_tok (pad_cal_col (n_of_string r) (n_of_string c)))
   | tag :: _ when String.length tag >= 3 && String.sub tag 0 3 = "rel" -> "holds"
